@@ -818,6 +818,14 @@ pub fn cmd_spec(args: &[String]) {
                         crate::dump::node_tokens(&ire.node, &mut t);
                         writeln!(w, "J {}", t).unwrap();
                     }
+                    // the early error "a negated class may not contain strings": is [^E] accepted?
+                    if let Some(Ast::VClass(e)) = v.get(1) {
+                        let mut np = String::from("^[^");
+                        print_ve_class(e, &mut np);
+                        np.push_str("]$");
+                        let acc = matches!(panic::catch_unwind(|| regress::Regex::with_flags(&np, f).is_ok()), Ok(true));
+                        writeln!(w, "K {} {}", acc as u8, crate::api_cps_hex(&np)).unwrap();
+                    }
                 }
             }
         }
